@@ -36,10 +36,10 @@ import (
 type Case struct {
 	Kind string `json:"kind"` // split-span | split-pagenr | split-bookmarks | split-raw | merge-create | merge-append | merge-append-new | merge-zip
 	// split
-	Doc     int   `json:"doc,omitempty"`   // generator index
-	Pages   int   `json:"pages,omitempty"` // page count of the generated document
-	Span    int   `json:"span,omitempty"`
-	PageNrs []int `json:"page_nrs,omitempty"`
+	Doc     int    `json:"doc,omitempty"`   // generator index
+	Pages   int    `json:"pages,omitempty"` // page count of the generated document
+	Span    int    `json:"span,omitempty"`
+	PageNrs []int  `json:"page_nrs,omitempty"`
 	Via     string `json:"via,omitempty"`   // split entry point: "" / file | reader | cli (the same code behind api.Split*File, api.Split*, pkg/cli commands)
 	Shape   bool   `json:"shape,omitempty"` // drawn by genShapeLists / genShapeSpans (request possibly outside the documented range)
 	// merge
@@ -678,7 +678,7 @@ func main() {
 		var cases []*Case
 		docsPerCount := t.Pick(1, 6)
 		listsPerDoc := t.Pick(4, 12)
-		shapeReps := t.Pick(1, 3)
+		shapeReps := 1 // draws of the shape set per document (quick keeps every second shape of the draw)
 		di := 0
 		for rep := 0; rep < docsPerCount; rep++ {
 			for n := 1; n <= 30; n++ {
@@ -694,7 +694,7 @@ func main() {
 				srng := t.RNGi("shapes", di)
 				v := di
 				// quick: every second shape per document, alternating with the document index (each shape on 15 of the 30
-				// page counts); thorough: all of them, three draws per document
+				// page counts); thorough: all of them
 				keep := func(j int) bool { return !t.Quick() || (j+di)%2 == 0 }
 				for rep2 := 0; rep2 < shapeReps; rep2++ {
 					for j, l := range genShapeLists(srng, n) {
